@@ -301,6 +301,7 @@ func RunShared(t *testing.T, sc *SScenario, out io.Writer) {
 		lg := NewLogger(out, start)
 		currentLogger.Store(lg)
 		sc.WriteHeader(lg.w)
+		lg.w.Flush() // the scenario is on disk before the code under test runs: a crash leaves a replayable file
 		rand.Seed(sc.Seed)
 		store := &fakeStore{parts: map[uint32]storeEntry{}, log: lg}
 		var insts []*sinstRun
